@@ -28,7 +28,7 @@ func FuzzC04(f *testing.F) {
 		v := strings.ReplaceAll(strings.ToValidUTF8(string(data), "\ufffd"), "\x00", "")
 		c := Case{Shape: sh.Pos + "/" + sh.Name, V: v}
 		switch sh.Pos {
-		case "lit", "like", "litkind":
+		case "lit", "like", "likefn", "litkind":
 			c.Quote = []string{"'", "\""}[render&1]
 			c.Style = []string{"min", "esc"}[(render>>1)&1]
 		case "param":
